@@ -45,6 +45,8 @@ INIT_VALUES: List[Dict[str, Any]] = [
     {"r": [{}, {"s": "q"}]},
     {"t": av.TS_ALPHA[3], "ri": [1, 2], "w": 0, "e": -1},
     {"m": {"v": 1}, "mp": {"k": {"a": 2}}, "r": [{"a": 3}], "oi": 7, "e": 7},
+    {"m": {"c": {"a": 1}}},
+    {"m": {"c": {"s": "x"}}, "ri": [3]},
 ]
 UNKNOWN_A = wire.make_rec(99, wire.VARINT, 5).raw
 UNKNOWN_B = wire.make_rec(100, wire.LEN, b"zz").raw
@@ -71,6 +73,10 @@ class ObsSpace(Space):
         for i in range(len(INIT_VALUES)):
             for route in ("ctor", "setattr", "inplace", "parse", "parse_unknown", "from_dict"):
                 out.append([["init", i, route]])
+            if av.has_lazy_variant(self.schema, self.p, INIT_VALUES[i]):
+                # content below sub-messages that were only ever read (m.c.a = 1): the parents are
+                # not flagged as present but are not empty either
+                out.append([["init", i, "lazy"]])
         return out
 
     def ops(self):
@@ -82,7 +88,7 @@ class ObsSpace(Space):
     def init(self, i: int, route: str):
         aval = INIT_VALUES[i]
         P = self.ns.P
-        if route in ("ctor", "setattr", "inplace"):
+        if route in ("ctor", "setattr", "inplace", "lazy"):
             return av.make_bp(self.ns, self.schema, self.p, aval, route)
         data = av.make_ref(self.schema, self.ref, self.p, aval).SerializeToString()
         if route == "parse":
@@ -199,7 +205,12 @@ class ObsSpace(Space):
             obj.t = av.TS_ALPHA[1]
 
     def check(self, obj, model, history):
-        """Edge invariant for the last operation of ``history``."""
+        """Edge invariant for the last operation of ``history`` (signatures of histories that start
+        from a lazily built state carry a trailing 'lazy-init')."""
+        sfx = _sfx(history)
+        return [(sig + sfx, d) for sig, d in self._check(obj, model, history)]
+
+    def _check(self, obj, model, history):
         out: List[Tuple[List[str], str]] = []
         op = history[-1]
         if op[0] == "init":
@@ -255,6 +266,10 @@ class ObsSpace(Space):
         return out
 
 
+def _sfx(history) -> List[str]:
+    return ["lazy-init"] if history and history[0][0] == "init" and history[0][2] == "lazy" else []
+
+
 _SP: Dict[str, ObsSpace] = {}
 
 
@@ -293,13 +308,13 @@ def _shard_sequences(shard: int, nshards: int, maxlen: int):
                     obj, _ = sp.replay(hist)
                     after = sp.observable(obj)
                 except Exception as e:
-                    t.violate(Violation(["purity", "obs-seq", obs[seq[-1]][1], "raised", type(e).__name__],
+                    t.violate(Violation(["purity", "obs-seq", obs[seq[-1]][1], "raised", type(e).__name__] + _sfx(hist),
                                         f"history={hist!r}: {type(e).__name__}: {e}"[:400], {"history": hist}))
                     continue
                 t.inc("transitions", ln)
                 diff = [k for k in baseline if baseline[k] != after[k]]
                 if diff:
-                    t.violate(Violation(["purity", "obs-seq", obs[seq[-1]][1], "changed", diff[0]],
+                    t.violate(Violation(["purity", "obs-seq", obs[seq[-1]][1], "changed", diff[0]] + _sfx(hist),
                                         f"history={hist!r}: {diff[0]}: {baseline[diff[0]]!r} -> {after[diff[0]]!r}"[:400],
                                         {"history": hist}))
                     continue
@@ -310,13 +325,13 @@ def _shard_sequences(shard: int, nshards: int, maxlen: int):
                             c_obj, _ = sp.replay(h2)
                             c_after = sp.observable(c_obj)
                         except Exception as e:
-                            t.violate(Violation(["purity", "copyop", cop, "raised-after-observers", type(e).__name__],
+                            t.violate(Violation(["purity", "copyop", cop, "raised-after-observers", type(e).__name__] + _sfx(h2),
                                                 f"history={h2!r}: {e}"[:300], {"history": h2}))
                             continue
                         t.inc("transitions")
                         d2 = [k for k in baseline if baseline[k] != c_after[k]]
                         if d2:
-                            t.violate(Violation(["purity", "copyop", cop, "unfaithful", d2[0]],
+                            t.violate(Violation(["purity", "copyop", cop, "unfaithful", d2[0]] + _sfx(h2),
                                                 f"history={h2!r}: {d2[0]}: {baseline[d2[0]]!r} -> {c_after[d2[0]]!r}"[:400],
                                                 {"history": h2}))
     return t
